@@ -252,3 +252,49 @@ Theorem C05_refuted_pre_fix_unparsable_payload_is_fatal_F43 :
     read_footer_json_pinned valid P f' = ScanError.
 Proof. exact C05_json_pinned_refuted. Qed.
 Print Assumptions C05_refuted_pre_fix_unparsable_payload_is_fatal_F43.
+
+(* SEVERAL FILES, MIXED SYNCING (CrashFiles): "that prefix is at least as long as the one covered
+   by the last persistence round that completed with syncing enabled" - also when LATER rounds
+   (a full compaction among them) ran without syncing.  A recorded trace of creates, footer
+   writes, Syncs and unlinks that keeps the discipline files_ok (new files get the highest number;
+   no footer is written below a newer file that holds one; the file holding the newest durable
+   footer is never unlinked), cut at ANY point, in ANY crash image (every file keeps its synced
+   footers and any subset of the later ones): the reopened directory serves a footer at least as
+   new as the newest footer that was ever made durable.  The discipline is evaluated on every
+   recorded trace of the real code by the crash runner. *)
+From Moss Require Import CrashFiles CrashFilesFacts.
+Theorem C05_crash_serves_at_least_the_last_synced_footer :
+  forall (tr : list fev) (n : nat) (img : image) (g : nat),
+    files_ok tr = true ->
+    let s := drun (firstn n tr) in
+    img_ok s img -> g_synced s = Some g ->
+    exists z id, reopen s img = Some (z, id) /\ (g <= id)%nat /\ In id (img z).
+Proof. exact crash_serves_at_least_last_synced. Qed.
+Print Assumptions C05_crash_serves_at_least_the_last_synced_footer.
+
+(* a footer synced while its file exists is covered from then on, whatever follows *)
+Theorem C05_synced_footer_stays_covered :
+  forall (tr2 : list fev) (s : dstate) (g : nat),
+    g_synced s = Some g ->
+    exists g', g_synced (fold_left dstep tr2 s) = Some g' /\ (g <= g')%nat.
+Proof. exact g_synced_mono. Qed.
+Print Assumptions C05_synced_footer_stays_covered.
+
+(* the pinned full compaction under NoSync with a zero-valued CompactionSyncAfterBytes (finding
+   F44): the new file is never synced, the old one is unlinked; the trace breaks the discipline
+   and the image in which nothing un-synced reached the disk reopens to NOTHING *)
+Theorem C05_refuted_pre_fix_unsynced_compaction_unlinks_synced_file_F44 :
+  files_ok tr_unsynced_compaction = false /\
+  exists img, let s := drun tr_unsynced_compaction in
+    img_ok s img /\ g_synced s = Some 0%nat /\ reopen s img = None.
+Proof. exact unsynced_compaction_loses_synced_round_refuted. Qed.
+Print Assumptions C05_refuted_pre_fix_unsynced_compaction_unlinks_synced_file_F44.
+
+(* the second clause is needed too: a footer written below a newer file holding one (F30's
+   situation) makes the reopen serve the staler file *)
+Theorem C05_footer_below_newer_file_refuted :
+  files_ok tr_stale_newer_file = false /\
+  exists img, let s := drun tr_stale_newer_file in
+    img_ok s img /\ g_synced s = Some 2%nat /\ reopen s img = Some (2, 1)%nat.
+Proof. exact footer_below_newer_file_refuted. Qed.
+Print Assumptions C05_footer_below_newer_file_refuted.
